@@ -74,7 +74,7 @@ class SpiSpec(Spec):
         else:
             self.rx_vals = sorted({a, ~a & mask, 1, 1 << (ws - 1)})
         self.tx_vals = sorted({t, ~t & mask})
-        self.time_budget = 150 if tier == "quick" else 850      # safety net only; sized to finish in seconds
+        self.time_budget = 600 if tier == "quick" else 3000     # safety net only; sized to finish in seconds
         self.max_states = 400_000 if tier == "quick" else 3_000_000
         self.idle_lvl = self.cpol
         self.act_lvl = 1 - self.cpol
